@@ -60,6 +60,27 @@ func readJournal(path string) (lc lastCase, any bool) {
 	return
 }
 
+// cpuSeconds returns the user+system CPU time consumed so far by process pid
+// (0 when /proc is not readable).
+func cpuSeconds(pid int) float64 {
+	b, err := os.ReadFile(fmt.Sprintf("/proc/%d/stat", pid))
+	if err != nil {
+		return 0
+	}
+	t := string(b)
+	if i := strings.LastIndex(t, ")"); i >= 0 {
+		t = t[i+1:]
+	}
+	f := strings.Fields(t)
+	if len(f) < 13 {
+		return 0
+	}
+	var ut, st float64
+	fmt.Sscan(f[11], &ut)
+	fmt.Sscan(f[12], &st)
+	return (ut + st) / 100
+}
+
 type workerResult struct {
 	findings []map[string]interface{}
 	counters map[string]int
@@ -92,6 +113,8 @@ func runWorker(bin, kind string, mod, rem int, dir string) workerResult {
 		stalled := false
 		var werr error
 		lastSize, lastChange := int64(-1), time.Now()
+		cpuAtChange := cpuSeconds(cmd.Process.Pid)
+		stallMsg := ""
 	wait:
 		for {
 			select {
@@ -100,8 +123,19 @@ func runWorker(bin, kind string, mod, rem int, dir string) workerResult {
 			case <-time.After(2 * time.Second):
 				if st, err := os.Stat(journal); err == nil && st.Size() != lastSize {
 					lastSize, lastChange = st.Size(), time.Now()
+					cpuAtChange = cpuSeconds(cmd.Process.Pid)
 				}
-				if time.Since(lastChange) > 90*time.Second {
+				// A case normally costs milliseconds. "Does not return" is
+				// decided on the worker's own CPU time where possible (a
+				// busy loop burns it whatever the load on the machine is);
+				// the wall clock covers a worker that is blocked instead.
+				burnt := cpuSeconds(cmd.Process.Pid) - cpuAtChange
+				if burnt > 20 && lastSize > 0 {
+					stallMsg = fmt.Sprintf("no journal progress while the worker burnt %.0f s of CPU time inside one case; SIGQUIT goroutine dump captured", burnt)
+				} else if time.Since(lastChange) > 90*time.Second {
+					stallMsg = "no journal progress for 90 s; SIGQUIT goroutine dump captured"
+				}
+				if stallMsg != "" {
 					stalled = true
 					cmd.Process.Signal(syscall.SIGQUIT) // goroutine dump into the stderr file
 					select {
@@ -170,7 +204,7 @@ func runWorker(bin, kind string, mod, rem int, dir string) workerResult {
 		msg := fmt.Sprintf("worker exited: %v", werr)
 		if stalled {
 			what = "hang"
-			msg = "no journal progress for 90 s; SIGQUIT goroutine dump captured"
+			msg = stallMsg
 		}
 		first := strings.SplitN(strings.TrimSpace(text), "\n", 2)[0]
 		if !any || lc.ended {
@@ -188,7 +222,7 @@ func main() {
 	flag.Parse()
 	r := verdict.New("C11", *tier, "exploration")
 	r.Rule = "decoder: every example embedded in the vocabulary files and seeded grammar documents, each under path-addressed grammar mutations (member removed / null / empty string / [] / {} / number / bool / array of arrays / object without id / wrong-kind literal / relative IRI / language map / nested @context ...), plus seeded hostile JSON values and JSON-ish byte strings, through ToType, Serialize and a resolver; handlers: the same operators applied to the request bodies of every corpus scenario (PostInbox, PostOutbox, Send, GET) and, one at a time, to every document the Transport and the Database return during those requests, plus actor documents without inbox and every protocol combination; each case runs in an isolated worker with recover() around the call and a begin/end journal, so that fatal errors and hangs are attributed; non-trivial = a case that reached library code; distinct by case index"
-	r.Assumptions = []string{"positive recursion limits are configured", "a logical budget of 100000 application calls per scenario stands in for 'fails to return'; a 90 s no-progress watchdog around each worker covers the rest", "quick runs a fixed stride of the mutation enumeration, thorough runs all of it"}
+	r.Assumptions = []string{"positive recursion limits are configured", "a logical budget of 100000 application calls per scenario stands in for 'fails to return'; a case that burns 20 s of its worker's CPU time without returning (normal cost: milliseconds; CPU time does not depend on the load of the machine) or a worker without progress for 90 s is a hang, attributed to the journalled case with a goroutine dump", "quick runs a fixed stride of the mutation enumeration, thorough runs all of it"}
 	dir := os.Getenv("VERIF_SCRATCH")
 	if dir == "" {
 		dir, _ = os.MkdirTemp("", "c11")
